@@ -29,6 +29,43 @@ pub enum Backing {
     Vec,
     Small2,
     Small4,
+    // Other item types (the container is generic): zero-sized, 8-byte, 24-byte, padded pair.
+    VecUnit,
+    SmallUnit4,
+    VecU64,
+    SmallU64x2,
+    VecWide,
+    SmallPair3,
+}
+
+/// Item types the deques are instantiated with; values are derived from the case's bytes.
+pub trait Elem: Copy + PartialEq + std::fmt::Debug + 'static {
+    fn of(v: u8) -> Self;
+}
+impl Elem for u8 {
+    fn of(v: u8) -> Self {
+        v
+    }
+}
+impl Elem for () {
+    fn of(_: u8) -> Self {}
+}
+impl Elem for u64 {
+    fn of(v: u8) -> Self {
+        (v as u64).wrapping_mul(0x0101_0101_0101_0101) ^ 0x00FF_00FF_0000_0000
+    }
+}
+impl Elem for [u8; 24] {
+    fn of(v: u8) -> Self {
+        let mut a = [v; 24];
+        a[23] = !v;
+        a
+    }
+}
+impl Elem for (u32, u16) {
+    fn of(v: u8) -> Self {
+        ((v as u32) << 24 | v as u32, (v as u16) << 8 | 1)
+    }
 }
 
 #[derive(Clone, Debug, Serialize, Deserialize)]
@@ -62,23 +99,24 @@ fn op_name(op: &Op) -> &'static str {
 }
 
 /// Applies one operation to both; returns an error description on disagreement.
-fn step<C>(
+fn step<C, T>(
     deque: &mut SlidingDeque<C>,
-    model: &mut VecDeque<u8>,
+    model: &mut VecDeque<T>,
     op: &Op,
     inline_cap: usize,
     stats: &mut Stats,
 ) -> Result<(), Fail>
 where
-    C: PushTruncateContainer<Item = u8> + Clone + Default,
+    T: Elem,
+    C: PushTruncateContainer<Item = T> + Clone + Default,
 {
     let name = op_name(op);
     let (prefix_before, len_before) = deque.verif_rep();
     let r = panics::catch(|| -> Result<(), String> {
         match *op {
             Op::Push(v) => {
-                deque.push_back(v);
-                model.push_back(v);
+                deque.push_back(T::of(v));
+                model.push_back(T::of(v));
             }
             Op::PopFront => {
                 let got = deque.pop_front();
@@ -109,10 +147,10 @@ where
             Op::Slide => deque.slide(),
             Op::SetFront(v) => {
                 let got = deque.front_mut().map(|x| {
-                    *x = v;
+                    *x = T::of(v);
                 });
                 let want = model.front_mut().map(|x| {
-                    *x = v;
+                    *x = T::of(v);
                 });
                 if got != want {
                     return Err(format!("front_mut is_some {:?}, reference {:?}", got.is_some(), want.is_some()));
@@ -120,10 +158,10 @@ where
             }
             Op::SetBack(v) => {
                 let got = deque.back_mut().map(|x| {
-                    *x = v;
+                    *x = T::of(v);
                 });
                 let want = model.back_mut().map(|x| {
-                    *x = v;
+                    *x = T::of(v);
                 });
                 if got != want {
                     return Err(format!("back_mut is_some {:?}, reference {:?}", got.is_some(), want.is_some()));
@@ -133,8 +171,8 @@ where
                 let len = model.len();
                 if len > 0 {
                     let i = (i as usize) % len;
-                    deque[i] = v;
-                    model[i] = v;
+                    deque[i] = T::of(v);
+                    model[i] = T::of(v);
                 }
             }
         }
@@ -155,8 +193,8 @@ where
     }
 
     // Observations after the step.
-    let view: &[u8] = deque;
-    let want: Vec<u8> = model.iter().copied().collect();
+    let view: &[T] = deque;
+    let want: Vec<T> = model.iter().copied().collect();
     if view != &want[..] {
         return Err(Fail::new(format!("view:{name}"), format!("after {name}: slice view {view:?}, reference {want:?}")));
     }
@@ -184,15 +222,16 @@ where
     Ok(())
 }
 
-fn run_typed<C>(case: &Case, inline_cap: usize) -> CaseResult
+fn run_typed<C, T>(case: &Case, inline_cap: usize) -> CaseResult
 where
-    C: PushTruncateContainer<Item = u8> + Clone + Default + From<Vec<u8>>,
+    T: Elem,
+    C: PushTruncateContainer<Item = T> + Clone + Default + From<Vec<T>>,
 {
-    let mut init = case.init.clone();
-    init.extend((0..case.init_fill).map(|i| (i % 251) as u8));
+    let mut init: Vec<T> = case.init.iter().map(|v| T::of(*v)).collect();
+    init.extend((0..case.init_fill).map(|i| T::of((i % 251) as u8)));
     let container: C = init.clone().into();
     let mut deque: SlidingDeque<C> = container.into();
-    let mut model: VecDeque<u8> = init.into_iter().collect();
+    let mut model: VecDeque<T> = init.into_iter().collect();
     let mut stats = Stats {
         pop_back_with_prefix: false,
         spilled: false,
@@ -212,9 +251,15 @@ where
 
 pub fn check_case(case: &Case) -> CaseResult {
     match case.backing {
-        Backing::Vec => run_typed::<Vec<u8>>(case, 0),
-        Backing::Small2 => run_typed::<SmallVec<[u8; 2]>>(case, 2),
-        Backing::Small4 => run_typed::<SmallVec<[u8; 4]>>(case, 4),
+        Backing::Vec => run_typed::<Vec<u8>, u8>(case, 0),
+        Backing::Small2 => run_typed::<SmallVec<[u8; 2]>, u8>(case, 2),
+        Backing::Small4 => run_typed::<SmallVec<[u8; 4]>, u8>(case, 4),
+        Backing::VecUnit => run_typed::<Vec<()>, ()>(case, 0),
+        Backing::SmallUnit4 => run_typed::<SmallVec<[(); 4]>, ()>(case, 4),
+        Backing::VecU64 => run_typed::<Vec<u64>, u64>(case, 0),
+        Backing::SmallU64x2 => run_typed::<SmallVec<[u64; 2]>, u64>(case, 2),
+        Backing::VecWide => run_typed::<Vec<[u8; 24]>, [u8; 24]>(case, 0),
+        Backing::SmallPair3 => run_typed::<SmallVec<[(u32, u16); 3]>, (u32, u16)>(case, 3),
     }
 }
 
@@ -233,9 +278,9 @@ const ALPHABET: [Op; 10] = [
 
 /// Depth-first enumeration of every operation sequence up to `depth`,
 /// sharing prefixes.  Returns (nodes, nontrivial nodes) or the first failure.
-fn dfs<C>(
+fn dfs<C, T>(
     deque: &SlidingDeque<C>,
-    model: &VecDeque<u8>,
+    model: &VecDeque<T>,
     path: &mut Vec<Op>,
     depth: usize,
     inline_cap: usize,
@@ -243,7 +288,8 @@ fn dfs<C>(
     counts: &mut (u64, u64),
 ) -> Result<(), (Vec<Op>, Fail)>
 where
-    C: PushTruncateContainer<Item = u8> + Clone + Default,
+    T: Elem,
+    C: PushTruncateContainer<Item = T> + Clone + Default,
 {
     if path.len() == depth {
         return Ok(());
@@ -274,9 +320,10 @@ where
     Ok(())
 }
 
-fn exhaustive<C>(ctx: &Ctx, rep: &mut Report, backing: Backing, inline_cap: usize, depth: usize)
+fn exhaustive<C, T>(ctx: &Ctx, rep: &mut Report, backing: Backing, inline_cap: usize, depth: usize)
 where
-    C: PushTruncateContainer<Item = u8> + Clone + Default + From<Vec<u8>>,
+    T: Elem,
+    C: PushTruncateContainer<Item = T> + Clone + Default + From<Vec<T>>,
 {
     let group = format!("exhaustive-{backing:?}");
     let mut counts = (0u64, 0u64);
@@ -294,7 +341,7 @@ where
             };
             let prefix = vec![fix(a, 0), fix(b, 1)];
             let mut deque: SlidingDeque<C> = SlidingDeque::new();
-            let mut model = VecDeque::new();
+            let mut model: VecDeque<T> = VecDeque::new();
             let mut stats = Stats {
                 pop_back_with_prefix: false,
                 spilled: false,
@@ -352,9 +399,23 @@ fn op_strategy() -> impl Strategy<Value = Op> {
     ]
 }
 
+fn any_backing() -> impl Strategy<Value = Backing> {
+    prop_oneof![
+        3 => Just(Backing::Vec),
+        3 => Just(Backing::Small2),
+        3 => Just(Backing::Small4),
+        1 => Just(Backing::VecUnit),
+        1 => Just(Backing::SmallUnit4),
+        1 => Just(Backing::VecU64),
+        1 => Just(Backing::SmallU64x2),
+        1 => Just(Backing::VecWide),
+        1 => Just(Backing::SmallPair3),
+    ]
+}
+
 fn case_strategy(max_ops: usize) -> impl Strategy<Value = Case> {
     (
-        prop_oneof![Just(Backing::Vec), Just(Backing::Small2), Just(Backing::Small4)],
+        any_backing(),
         prop_oneof![3 => Just(vec![]), 1 => proptest::collection::vec(any::<u8>(), 0..9)],
         proptest::collection::vec(op_strategy(), 0..max_ops),
     )
@@ -364,7 +425,7 @@ fn case_strategy(max_ops: usize) -> impl Strategy<Value = Case> {
 /// Large deques (tens to hundreds of KiB of elements): consume around half, then work at both ends.
 fn large_case_strategy() -> impl Strategy<Value = Case> {
     (
-        prop_oneof![Just(Backing::Vec), Just(Backing::Small2), Just(Backing::Small4)],
+        any_backing(),
         prop_oneof![Just(1u32 << 16), Just(1 << 17), Just((1 << 17) + 2), Just(140_000), Just(1 << 18), 60_000u32..300_000, 1000u32..70_000],
         -3i32..=3,
         proptest::collection::vec(
@@ -401,9 +462,13 @@ fn large_case_strategy() -> impl Strategy<Value = Case> {
 
 pub fn run(ctx: &Ctx, rep: &mut Report) {
     let depth = ctx.tier.pick(8, 9);
-    exhaustive::<Vec<u8>>(ctx, rep, Backing::Vec, 0, depth);
-    exhaustive::<SmallVec<[u8; 2]>>(ctx, rep, Backing::Small2, 2, depth);
-    exhaustive::<SmallVec<[u8; 4]>>(ctx, rep, Backing::Small4, 4, depth);
+    exhaustive::<Vec<u8>, u8>(ctx, rep, Backing::Vec, 0, depth);
+    exhaustive::<SmallVec<[u8; 2]>, u8>(ctx, rep, Backing::Small2, 2, depth);
+    exhaustive::<SmallVec<[u8; 4]>, u8>(ctx, rep, Backing::Small4, 4, depth);
+    // Other item types, one level less deep: zero-sized, and wider than a byte.
+    exhaustive::<Vec<()>, ()>(ctx, rep, Backing::VecUnit, 0, depth - 1);
+    exhaustive::<SmallVec<[u64; 2]>, u64>(ctx, rep, Backing::SmallU64x2, 2, depth - 1);
+    exhaustive::<SmallVec<[(u32, u16); 3]>, (u32, u16)>(ctx, rep, Backing::SmallPair3, 3, depth - 1);
     rep.add_sample(
         "exhaustive-Vec",
         json!({"note": "every sequence over the alphabet up to max_depth, e.g.", "ops": ["Push(1)", "Push(2)", "Push(3)", "Push(4)", "Advance(2)", "PopBack"]}),
@@ -421,7 +486,7 @@ fn replay(_ctx: &Ctx, _group: &str, case: &Value) -> CaseResult {
 pub fn def() -> PropDef {
     PropDef {
         id: "C15",
-        rule: "Cases are operation sequences on SlidingDeque over Vec, SmallVec<[u8;2]> and SmallVec<[u8;4]>, compared step by step with std::collections::VecDeque (return values, contiguous view, len, is_empty, front, back) plus the space bound read through the verif_rep hook. Part 1 enumerates every sequence over a 10-symbol alphabet up to max_depth by depth-first search with shared prefixes; part 2 draws random sequences of up to 200 operations (optionally starting from a pre-filled container) with proptest; part 3 (large) starts from 1000..300000 elements (sizes around 2^16, 2^17, 2^18), consumes half of them +-3, then pops, pushes and advances at both ends. Non-trivial: the sequence contains a pop_back executed while the consumed prefix is non-zero, or an inline-to-heap transition of the small-vector backing. Distinct: by enumeration for part 1, by hash of the serialised case for part 2.",
+        rule: "Cases are operation sequences on SlidingDeque over Vec, SmallVec<[u8;2]> and SmallVec<[u8;4]> (and, less often and one level less deep in part 1, over item types other than a byte: the zero-sized (), u64, [u8;24] and the padded pair (u32,u16), in Vec and SmallVec backings), compared step by step with std::collections::VecDeque (return values, contiguous view, len, is_empty, front, back) plus the space bound read through the verif_rep hook. Part 1 enumerates every sequence over a 10-symbol alphabet up to max_depth by depth-first search with shared prefixes; part 2 draws random sequences of up to 200 operations (optionally starting from a pre-filled container) with proptest; part 3 (large) starts from 1000..300000 elements (sizes around 2^16, 2^17, 2^18), consumes half of them +-3, then pops, pushes and advances at both ends. Non-trivial: the sequence contains a pop_back executed while the consumed prefix is non-zero, or an inline-to-heap transition of the small-vector backing. Distinct: by enumeration for part 1, by hash of the serialised case for part 2.",
         assumptions: &[
             "harness built with debug assertions on, so the crate's own check_rep assertions are active",
             "VecDeque is the reference double-ended queue",
